@@ -134,6 +134,26 @@ func TestC04(t *testing.T) {
 	ev.Check(t, "c04_tree", ev.N(400, 4000), func(t *rapid.T) c04Case {
 		return c04Case{genSmallWL(t, ev.Pick(20000, 200000), true, nil)}
 	}, c04Run)
+	// recipes far beyond enumeration (Length up to 160): support check
+	ev.Check(t, "c04_long_support", ev.N(32, 320), func(t *rapid.T) supWL {
+		w := gen.WLSpec{Words: gen.WordList(t, gen.WordListOpts{Min: 1, Max: 5, AllCapable: true}),
+			Length: rapid.IntRange(40, 160).Draw(t, "long_length"),
+			Scheme: rapid.SampledFrom([]string{"one", "random", "random", "all", "none"}).Draw(t, "scheme")}
+		switch rapid.IntRange(0, 2).Draw(t, "sep") {
+		case 0:
+			w.Sep = gen.SepSpec{Kind: "const", Const: "-"}
+		case 1:
+			w.Sep = gen.SepSpec{Kind: "preset", Preset: "SFDigits1"}
+		default:
+			w.Sep = gen.SepSpec{Kind: "draw", Draw: []string{"-", "+", "·x"}, DrawEnt: 0}
+		}
+		return supWL{W: w, Key: rapid.Uint64().Draw(t, "key")}
+	}, func(c supWL) error {
+		ev.Class("long_support_scheme=" + c.W.Scheme)
+		ev.NonTrivial(fmt.Sprintf("long|%+v", c.W))
+		ev.Sample("c04_long_support", 2, c)
+		return wlSupport(c)
+	})
 	ev.Fixed(t, "c04_shipped", func(do func(c04Shipped) bool) {
 		// split the index range of both lists over the shards
 		for _, l := range []string{"words", "syllables"} {
